@@ -90,6 +90,7 @@ impl Default for FuelConverter {
 
 impl SerdeAPI for FuelConverter {
     fn init(&mut self) -> anyhow::Result<()> {
+        let _ = self.mass().with_context(|| format_dbg!())?;
         self.state.init()?;
         Ok(())
     }
